@@ -197,7 +197,11 @@ def install(R, fs, logdir='/logs'):
     fos.rename = rename; fos.replace = rename
     R.os = fos
     R.open = lambda p, m='r', *a, **k: FakeFile(fs, p, m)
-    R.int = sym_int
+    class _IntMeta(type):
+        def __instancecheck__(cls, x): return isinstance(x, (builtins.int, SymInt))
+        def __call__(cls, x=0, *a): return sym_int(x, *a)
+    class FakeInt(metaclass=_IntMeta): pass
+    R.int = FakeInt
     class DT(FakeDT):
         @staticmethod
         def fromtimestamp(ts, tz=None): return DT(ts, tz)
